@@ -7,8 +7,10 @@ CONSTANTS
   MaxNet = @NET@
   MaxHdr = @HDR@
   MaxBurst = @BURST@
+  MaxAckSet = 50
   MaxChunks = @CHUNKS@
   Sched = TRUE
+  Patient = @PATIENT@
   ChunkCounts <- MCChunkCounts
 SPECIFICATION Spec
 INVARIANTS Core NetOK DeliveredOK MemOK
